@@ -918,6 +918,160 @@ def deffault_run(case, ctx):
                  "after 30 more repetitions (expected 0)" % (case, r1 - r0, r2 - r1))
 
 
+# ----------------------------------------------------------------------------- the cTrait object's own attribute API
+WEIRD = [None, 0, 1, -1, "s", 1.5, object, [], {}, (), 2 ** 70, len, True, ("a", 1), b"b"]
+
+
+def _ct_attrs():
+    from traits.ctraits import cTrait
+    from traits.ctrait import CTrait
+    names = set()
+    for klass in (cTrait, CTrait):
+        for n, v in vars(klass).items():
+            if type(v).__name__ in ("getset_descriptor", "property", "member_descriptor"):
+                names.add(n)
+    return sorted(names)
+
+
+def ctapi_gen(tier, shard, nshards):
+    i = 0
+    cases = []
+    for a in _ct_attrs():
+        for base in ("raw", "int", "list", "prop", "delegate"):
+            cases.append({"what": "del", "attr": a, "base": base})
+            for vi in range(len(WEIRD)):
+                cases.append({"what": "set", "attr": a, "base": base, "val": vi})
+    # (kinds 3 = delegate and 4 = property are shells that traits itself completes with delegate() / property_fields
+    #  before any use; driving the unconfigured shell is not an API use, see DESIGN §16)
+    for k in [-1, 0, 1, 2, 5, 6, 7, 8, 9, 100, 2 ** 40]:
+        cases.append({"what": "rawkind", "kind": k})
+    for variant in ("non-hastraits", "none", "missing", "cycle", "ok"):
+        cases.append({"what": "base_trait", "variant": variant})
+    for c in cases:
+        if i % nshards == shard:
+            yield c
+        i += 1
+
+
+def _ct_make(base):
+    from traits.ctrait import CTrait
+    if base == "raw":
+        return CTrait(0)
+    if base == "int":
+        return Int(3).as_ctrait()
+    if base == "list":
+        return List(Int).as_ctrait()
+    if base == "prop":
+        return T.Property(lambda self: 1, lambda self, v: None).as_ctrait()
+    return DelegatesTo("peer").as_ctrait()
+
+
+def _exercise(ct):
+    """Use a (possibly mangled) cTrait every way an object would."""
+    def quiet(f):
+        try:
+            f()
+        except RecursionError:
+            raise
+        except Exception:
+            pass
+    h = type("CH", (HasTraits,), {"peer": Instance(HasTraits)})()
+    h.peer = Peer()
+    quiet(lambda: ct.validate(h, "q", 1))
+    quiet(lambda: ct.default_value())
+    quiet(lambda: ct.default_value_for(h, "q"))
+    quiet(lambda: ct.clone(ct))
+    quiet(lambda: pickle.loads(pickle.dumps(ct)))
+    quiet(lambda: h.add_trait("q", ct))
+    quiet(lambda: getattr(h, "q"))
+    quiet(lambda: setattr(h, "q", 2))
+    quiet(lambda: getattr(h, "q"))
+    quiet(lambda: setattr(h, "q", "x"))
+    quiet(lambda: delattr(h, "q"))
+    quiet(lambda: h.trait("q"))
+    quiet(lambda: h.base_trait("q"))
+    quiet(lambda: h.remove_trait("q"))
+    for a in _ct_attrs():
+        quiet(lambda: getattr(ct, a))
+    del h
+
+
+def ctapi_run(case, ctx):
+    from traits.ctrait import CTrait
+    what = case["what"]
+    ctx.nontrivial()
+    if what in ("del", "set"):
+        ct = _ct_make(case["base"])
+        try:
+            if what == "del":
+                delattr(ct, case["attr"])
+            else:
+                v = WEIRD[case["val"]]
+                setattr(ct, case["attr"], v() if v is object else v)
+        except RecursionError:
+            raise
+        except SystemError as e:
+            ctx.fail("systemerror/ctrait-api", "%r raised %r" % (case, e))
+        except Exception:
+            ctx.label("refused")
+        e = stale_error()
+        if e is not None:
+            ctx.fail("stale-error/ctrait-api", "%r left the error indicator set: %r" % (case, e))
+        _exercise(ct)
+    elif what == "rawkind":
+        try:
+            ct = CTrait(case["kind"])
+        except Exception:
+            ctx.label("refused")
+            return
+        _exercise(ct)
+    else:
+        # base_trait() of a delegated trait along working and broken delegation chains: reference-neutral either way
+        variant = case["variant"]
+        A = type("BA", (HasTraits,), {"p": Any, "x": DelegatesTo("p")})
+        a = A()
+        with warnings.catch_warnings():
+            warnings.simplefilter("ignore")
+            push_exception_handler(handler=lambda *args: None, reraise_exceptions=False, main=True)
+            try:
+                if variant == "non-hastraits":
+                    a.p = 5
+                elif variant == "none":
+                    a.p = None
+                elif variant == "missing":
+                    a.p = Peer()            # Peer has no 'x': bad delegate
+                elif variant == "cycle":
+                    a.p = a
+                else:
+                    a.p = type("BP", (HasTraits,), {"x": Int})()
+            finally:
+                pop_exception_handler()
+        t = A.__class_traits__["x"]
+
+        def op():
+            try:
+                a.base_trait("x")
+            except RecursionError:
+                raise
+            except Exception:
+                pass
+        op()
+        r0 = sys.getrefcount(t)
+        for _ in range(10):
+            op()
+        r1 = sys.getrefcount(t)
+        for _ in range(30):
+            op()
+        r2 = sys.getrefcount(t)
+        if r1 - r0 or r2 - r1:
+            ctx.fail("refcount/" + ("over-release" if (r1 < r0 or r2 < r1) else "leak"),
+                     "base_trait('x') with delegate variant %r changes the reference count of the class trait by %+d after 10 and %+d "
+                     "after 30 more calls" % (variant, r1 - r0, r2 - r1))
+        e = stale_error()
+        if e is not None:
+            ctx.fail("stale-error/ctrait-api", "%r left the error indicator set: %r" % (case, e))
+
+
 def stages(tier):
     out = [reuse_stage(m, s, d, tier) for m, s, d in REUSE]
     out.append({"name": "reentrant", "kind": "hyp", "strategy": reentrant_strategy, "run": reentrant_run, "flavour": "asan",
@@ -933,6 +1087,8 @@ def stages(tier):
                 "exhaustive": True})
     out.append({"name": "refgrid", "kind": "enum", "batch": True, "gen": refgrid_gen, "run": refgrid_run, "flavour": "plain",
                 "shards": 16, "exhaustive": True})
+    out.append({"name": "ctrait-api", "kind": "enum", "gen": ctapi_gen, "run": ctapi_run, "flavour": "asan", "shards": 8,
+                "exhaustive": True})
     out.append({"name": "deffault", "kind": "enum", "gen": deffault_gen, "run": deffault_run, "flavour": "plain", "shards": 4,
                 "exhaustive": True})
     out.append({"name": "deffault-asan", "kind": "enum", "gen": deffault_gen, "run": deffault_run, "flavour": "asan", "shards": 8,
